@@ -54,16 +54,22 @@ func runClient(c *engine.Check) {
 		engine.D("router", rig.Routers...),
 		engine.D("client", "web", "pub"),
 		engine.D("script", "approve@10.5s", "approve@0s", "deny@10.5s", "deny@0s", "expire", "give-up@9.5s", "approve@10.5s+first-poll-times-out", "approve@300.5s", "approve@10.5s-deny@11.5s"),
-		engine.D("interval", engine.Pick(c, []string{"5s", "2s"}, []string{"5s", "2s", "1s", "7s"})...),
+		// the device polls at this interval AND the provider is configured with it (DeviceAuthorization.PollInterval)
+		engine.D("interval", engine.Pick(c, []string{"5s", "2s", "1s"}, []string{"5s", "2s", "1s", "7s"})...),
 		engine.D("user", "u1", "u2"),
 	}
 	c.RunE1(engine.E1{
 		Part: "client", Space: space, K: len(space),
 		NewWorker: func(w int) func(engine.Vec) engine.Result {
-			r := (&part{}).newRig()
+			rigs := map[time.Duration]*rig.Rig{}
 			return func(v engine.Vec) engine.Result {
 				router := slices.Index(rig.Routers, space.Get(v, "router"))
 				iv, _ := time.ParseDuration(space.Get(v, "interval"))
+				r, ok := rigs[iv]
+				if !ok {
+					r = cfgRig(devCfg{Poll: iv, Life: lifetime})
+					rigs[iv] = r
+				}
 				var res engine.Result
 				if pan := engine.Bubble(c.T, time.Hour, func() {
 					res = clientCase(r, router, space.Get(v, "client"), space.Get(v, "script"), iv, space.Get(v, "user"))
@@ -94,6 +100,9 @@ func clientCase(r *rig.Rig, router int, client, script string, interval time.Dur
 	}
 	if err != nil {
 		return engine.Bad("client-da", "error", "C16/devauth-refused/"+rn+"/"+kind, "rp.DeviceAuthorization of a registered client failed: "+err.Error())
+	}
+	if da.Interval != int(interval/time.Second) {
+		return engine.Bad("client-da", "bad-interval", "C16/devauth-format/"+rn+"/interval", fmt.Sprintf("interval=%d handed to the client, configured poll interval %v", da.Interval, interval))
 	}
 	if _, ok := st.Devices[da.DeviceCode]; !ok {
 		return engine.Bad("client-da", "not-stored", "C16/devauth-format/"+rn+"/not-stored", "device code returned to the client is not the stored one")
